@@ -5,6 +5,16 @@ from .vflow import possible_consts
 def returns_via_edge(fn, src, dst):
     """set of possible return values (ints / descriptors) on paths that take CFG edge src->dst"""
     after = reachable_from(dst)
+    if src not in after:
+        # the edge fixes the truth of its condition; a later test of the same (or the complementary) condition cannot go the other way
+        from .cfg import correlated_conditions, feasible_reachable, known_truths_at, _edge_truth
+        conds = correlated_conditions(fn)
+        if conds:
+            et = _edge_truth(fn, src, dst, conds)
+            known = set(known_truths_at(fn, src))
+            if et is not None and not any(k == et[0] and v != et[1] for k, v in known):
+                known = {(k, v) for k, v in known if k != et[0]} | {et}
+            after = feasible_reachable(fn, dst, known=known)
     via = after | {src}
     # the branch condition that selects this edge is known on every path through it (unless the branch can run again)
     truth = None
